@@ -68,12 +68,15 @@ func (r *Reader) next(want int) (off uint64, n int) {
 	off = r.Pos
 	r.Pos += uint64(n)
 	call := int32(-1)
-	if cur >= 0 && cur < len(curCall) {
+	if cur >= 0 && cur < maxIDs {
 		call = curCall[cur]
 	}
 	task := mainTask
 	if schedActive {
 		task = cur
+		if cur >= 0 && cur < maxIDs {
+			task = int(rootOf[cur]) // a goroutine the library started reads on behalf of its caller (-1: none left)
+		}
 	}
 	r.logAdd(ReadRec{Task: task, Call: call, Off: off, N: n, Want: want})
 	return
@@ -117,7 +120,7 @@ func (r *Reader) Read(p []byte) (int, error) {
 //
 //go:norace
 func SetCurCall(t int, call int32) {
-	if t >= 0 && t < len(curCall) {
+	if t >= 0 && t < maxIDs {
 		curCall[t] = call
 	}
 }
